@@ -273,6 +273,15 @@ func RunRestart(scn RestartScn, env *runner.Env, res *runner.Result) {
 			res.Violate("sync-ended-after-restart", fmt.Sprintf("Sync ended after the restart (err=%v crashed=%v)", err, c), wit(""))
 			return
 		}
+		if ownNewest != "" && !s.Loaded("a", ownNewest, incFrom) && s.Count("a", "loop.end", incFrom) > 500 && atomic.LoadInt32(&loadFailsLeft) < 0 {
+			// the loop has been iterating for a long time (logical clock), the download was let through, and the
+			// instance's own newest snapshot was still never merged: whatever it uploads meanwhile lacks that data
+			res.Violate("own-snapshot-not-merged-after-restart", fmt.Sprintf("%d loop iterations after the restart instance a has still not merged its own newest snapshot %s", s.Count("a", "loop.end", incFrom), ownNewest), wit("restart"))
+			for _, v := range mon.Viol {
+				res.Violate("published-data-lost", v, wit("conservation monitor"))
+			}
+			return
+		}
 		res.Verdict, res.Msg = runner.Inconclusive, "after restart: "+why
 		return
 	}
@@ -786,6 +795,32 @@ func runCleanForced(scn CleanScn, env *runner.Env, res *runner.Result, which str
 			break
 		}
 		time.Sleep(300 * time.Microsecond)
+	}
+	// late phase: the instance stays quiet for longer than the stale-instance interval (nothing is uploaded any more,
+	// the loop is stopped so that the cleaner can be driven from here). Its own newest snapshot was merged and
+	// re-published by nobody: no rule allows the cleaner to remove it.
+	ownNewestLate := ""
+	if !scn.Crash && atomic.LoadInt32(&phase) == 3 {
+		loop.Stop(5 * time.Second)
+		for _, n := range b.Names() {
+			if strings.HasPrefix(n, dbName+"__a__") && n > ownNewestLate {
+				ownNewestLate = n
+			}
+		}
+		vlate := vnow.Add(72 * time.Hour)
+		for k := 0; k < 3; k++ {
+			start := len(b.Log())
+			_ = cl.RunOnce(context.Background(), vlate)
+			vlate = vlate.Add(2 * time.Hour)
+			for _, e := range b.Log()[start:] {
+				if e.Op == "Delete" && e.Err == "" && e.Name == ownNewestLate {
+					mu.Lock()
+					policyViol = append(policyViol, fmt.Sprintf("the instance's own newest snapshot %s was deleted by its own cleaner after it had been quiet for 3 days (stale-instance interval 1 day): nobody merged and re-published it", ownNewestLate))
+					mu.Unlock()
+				}
+			}
+		}
+		res.Count("late_quiet_phases", 1)
 	}
 	res.Count("cleaner_forced_scenarios", 1)
 	res.Count("cleaner_runs_forced", int64(atomic.LoadInt32(&cleanerRuns)))
